@@ -237,7 +237,7 @@ def attach_expectations(ctx, cases):
 
 
 def generate(ctx):
-    n = ctx.pick(1300, 30000)
+    n = ctx.pick(4000, 40000)
     max_stmts = ctx.pick(25, 60)
     max_depth = ctx.pick(3, 5)
     batch = []
